@@ -1028,37 +1028,40 @@ def term_str(lang: Lang, t, top=True):
     return s if top else f"({s})"
 
 
+class _PrintReport:
+    """stand-in for C.Report in replay mode: prints instead of writing files"""
+
+    def __init__(self):
+        self.count = 0
+
+    def known(self, signature):
+        return None
+
+    def violation(self, name, payload, *, has_input=True, signature=None):
+        self.count += 1
+        print(f"  {name}: {payload.get('what')}" + (f"  [{signature}]" if signature else ""))
+        for k in ("exception", "message", "where", "unexpanded_type", "expanded_type", "impl", "model"):
+            if payload.get(k) is not None:
+                print(f"      {k}: {payload[k]}")
+
+
 def replay_file(path: str) -> int:
-    """re-run one recorded input on the implementation and print what happens"""
+    """re-run one recorded input (language, and expression if any) through
+    the same oracles and the model; exit 1 if it still fails"""
     d = json.loads(open(path).read())
     lang = Lang.from_json(d["language"])
 
     def tup(x):
         return tuple(tup(y) for y in x) if isinstance(x, list) else x
-    impl = Impl(lang)
-    for i, o in enumerate(lang.ops):
-        if o["body"] is not None:
-            try:
-                impl.ops[i].validate()
-            except BaseException as ex:   # noqa
-                print(f"validate {o['name']}: {type(ex).__name__}: {ex}")
-    if "expr" not in d:
-        return 0
-    t = tup(d["expr"])
-    print("expression:", term_str(lang, t))
-    try:
-        e = impl.build(t)
-        print("type:", e.type)
-        p = e.primitive()
-        print("primitive():", p.text(with_type=False), ":", p.type)
-        print("encoded:", impl.enc(p, {}, 0, {}))
-        if "model" in d:
-            print("model:  ", d["model"][1:])
-    except BaseException as ex:   # noqa
-        sig, where = crash_signature(ex)
-        print(f"RAISED {type(ex).__name__}: {str(ex)[:200]}  [{sig} at {where}]")
-        return 1
-    return 0
+    exprs = [tup(d["expr"])] if "expr" in d else []
+    for t in exprs:
+        print("expression:", term_str(lang, t))
+    rep = _PrintReport()
+    run = Runner(rep)
+    run.run([(lang, exprs)], "replay")
+    print(f"{rep.count} violation(s) on this input; outcome: "
+          + ", ".join(f"{k}={v}" for k, v in run.dist.items() if v))
+    return 1 if rep.count else 0
 
 
 def main(tier: str, seed: int, replay: str | None = None) -> int:
